@@ -70,12 +70,27 @@ type c04Cell struct {
 	Cred     string `json:"cred"`
 	// NoActivity: skip the intervening legitimate activity (racing draws only)
 	NoActivity bool `json:"no_activity,omitempty"`
+	// Foreign: the requester's credential is valid for ANOTHER mapping A, while the tunnel
+	// id it presents belongs to the victim's mapping B. "disjoint": A's parties are not
+	// parties of B; "shared-listen": A and B have the same listen client, different targets.
+	// Identities are then listenA / targetA.
+	Foreign string `json:"foreign,omitempty"`
+	// PrimerSecret: the victims' own opens carry the mapping's secret (raw-JSON family)
+	PrimerSecret bool `json:"primer_secret,omitempty"`
+	// Zone: name of the fixed zone time.Local was set to for this run (zone family)
+	Zone string `json:"zone,omitempty"`
 }
 
 func (c c04Cell) key() string {
 	k := c.Kind + "|" + c.Tunnel + "|" + c.MapState + "|" + c.Identity + "|" + c.Cred
 	if c.NoActivity {
 		k += "|quiet"
+	}
+	if c.Foreign != "" {
+		k += "|foreign=" + c.Foreign
+	}
+	if c.Zone != "" {
+		k += "|zone=" + c.Zone
 	}
 	return k
 }
@@ -102,6 +117,24 @@ const (
 // decide the cell (mapping without a secret, target client presenting the mapping id:
 // "presenting the mapping's secret" is vacuous) — such cells get no verdict.
 func c04Policy(c c04Cell) (entitled bool, why string, ambiguous bool) {
+	if c.Foreign != "" {
+		// entitled only to the TUNNEL's mapping: a party of mapping A alone has no right to
+		// mapping B's tunnel, whatever (valid) credential for A it presents. The listen client
+		// that A and B share is a party of B but presents A's id/secret: not decided here.
+		if c.Foreign == "shared-listen" && c.Identity == "listenA" {
+			return false, "tunnel-of-another-mapping", true
+		}
+		return false, "tunnel-of-another-mapping", false
+	}
+	if strings.HasPrefix(c.Cred, "raw:") {
+		// raw JSON payloads: what the bytes say decides, never what an earlier request said
+		switch c.Cred {
+		case "raw:secret-absent", "raw:secret-empty", "raw:secret-null":
+			c.Cred = "id"
+		default:
+			c.Cred = "none"
+		}
+	}
 	switch c.Identity {
 	case "listen", "target", "other":
 	default:
@@ -173,12 +206,16 @@ type c04World struct {
 	tunnel  string
 	vL, vT  *c04End
 	vTFirst bool
-	wantExp time.Time // the ExpiresAt written for an expired-* cell
-	rq      *c04End
-	seq     int
-	mu      sync.Mutex
-	trace   []string
-	jitter  [2]time.Duration // racing: delays of the victim / the requester
+	wantExp time.Time  // the ExpiresAt written for an expired-* cell
+	oldExp  *time.Time // ExpiresAt as read back before that write
+	// foreign family: mapping A and its parties
+	LA, TA          *miniClient
+	mapAID, secretA string
+	rq              *c04End
+	seq             int
+	mu              sync.Mutex
+	trace           []string
+	jitter          [2]time.Duration // racing: delays of the victim / the requester
 }
 
 func (w *c04World) logf(f string, a ...any) {
@@ -298,7 +335,62 @@ func (w *c04World) populate(idx int) error {
 		w.mapID = m.ID
 		w.secret = m.SecretKey // empty on the current tree
 	}
+	if cell.Foreign != "" {
+		w.TA = w.n.NewClient("")
+		w.LA = w.L
+		if cell.Foreign == "disjoint" {
+			w.LA = w.n.NewClient("")
+		}
+		exp := time.Now().Add(time.Hour)
+		w.secretA = fmt.Sprintf("mapsecretA-%08x", run.Rand("secretA").Int63()+int64(idx))
+		m, err := w.n.CC.CreatePortMapping(&models.PortMapping{
+			ListenClientID: w.LA.ClientID, TargetClientID: w.TA.ClientID,
+			Protocol: models.ProtocolTCP, SourcePort: 18081, TargetHost: "127.0.0.1", TargetPort: 8081,
+			ListenAddress: "0.0.0.0:18081", TargetAddress: "tcp://127.0.0.1:8081",
+			SecretKey: w.secretA, Status: models.MappingStatusActive, ExpiresAt: &exp,
+			Type: models.MappingTypeAnonymous,
+		})
+		if err != nil {
+			return fmt.Errorf("create mapping A: %v", err)
+		}
+		w.mapAID = m.ID
+	}
 	return nil
+}
+
+// rawPayload builds the TunnelOpen body byte by byte for the raw:* credentials (members
+// absent / empty / null), which marshalling packet.TunnelOpenRequest can never produce.
+func (w *c04World) rawPayload() []byte {
+	q := func(s string) string { b, _ := json.Marshal(s); return string(b) }
+	switch w.cell.Cred {
+	case "raw:secret-absent":
+		return []byte(`{"mapping_id":` + q(w.mapID) + `,"tunnel_id":` + q(w.tunnel) + `}`)
+	case "raw:secret-empty":
+		return []byte(`{"mapping_id":` + q(w.mapID) + `,"tunnel_id":` + q(w.tunnel) + `,"secret_key":""}`)
+	case "raw:secret-null":
+		return []byte(`{"mapping_id":` + q(w.mapID) + `,"tunnel_id":` + q(w.tunnel) + `,"secret_key":null}`)
+	case "raw:empty-object":
+		return []byte(`{}`)
+	case "raw:no-payload":
+		return nil
+	case "raw:tunnel-only":
+		return []byte(`{"tunnel_id":` + q(w.tunnel) + `}`)
+	case "raw:all-null":
+		return []byte(`{"mapping_id":null,"tunnel_id":null,"secret_key":null}`)
+	}
+	return []byte(`{}`)
+}
+
+func (w *c04World) openRaw(e *c04End, tunnelID string, payload []byte) {
+	e.drain()
+	from := len(e.rx)
+	err := e.c.Send(&packet.TransferPacket{PacketType: packet.TunnelOpen, TunnelID: tunnelID, Payload: payload})
+	if err != nil {
+		e.err = err.Error()
+	}
+	e.drain()
+	e.ack = c04ParseAck(e.node.ctx, e.rx[from:])
+	w.logf("raw TunnelOpen payload %q", string(payload))
 }
 
 // open sends a TunnelOpen on e's connection and parses the acknowledgement out of the
@@ -394,8 +486,12 @@ func (w *c04World) victimListenSend() {
 		w.logf("server ingress tunnel started: id=%s err=%q", id, e.err)
 		return
 	}
-	w.open(e, &packet.TunnelOpenRequest{MappingID: w.mapID, TunnelID: w.tunnel})
-	w.logf("victimL open: ack=%s err=%q", c04AckStr(e.ack), e.err)
+	vreq := &packet.TunnelOpenRequest{MappingID: w.mapID, TunnelID: w.tunnel}
+	if w.cell.PrimerSecret {
+		vreq.SecretKey = w.secret
+	}
+	w.open(e, vreq)
+	w.logf("victimL open (secret presented: %v): ack=%s err=%q", w.cell.PrimerSecret, c04AckStr(e.ack), e.err)
 }
 
 func (w *c04World) victimTargetOpen() error {
@@ -461,6 +557,7 @@ func (w *c04World) setMapState() error {
 			return err
 		}
 		past := time.Now().Add(-c04ExpiryOffsets[w.cell.MapState]).Round(0)
+		w.oldExp = m.ExpiresAt
 		m.ExpiresAt = &past
 		w.wantExp = past
 		return w.n.CC.UpdatePortMapping(m)
@@ -501,8 +598,14 @@ func (w *c04World) checkMapState() error {
 			return fmt.Errorf("mapping not revoked+status-active")
 		}
 	case "expired-1s", "expired-1m", "expired-1h":
-		if m.ExpiresAt == nil || !m.ExpiresAt.Equal(w.wantExp) || !w.wantExp.Before(time.Now()) {
-			return fmt.Errorf("stored ExpiresAt %v is not the written past instant %v", m.ExpiresAt, w.wantExp)
+		// the record must be the rewritten one (its ExpiresAt is no longer the value read
+		// back before the write) and the instant WE wrote lies in the past; how the
+		// implementation re-reads that instant is part of what is under test
+		if m.ExpiresAt == nil || (w.oldExp != nil && m.ExpiresAt.Equal(*w.oldExp)) || !w.wantExp.Before(time.Now()) {
+			return fmt.Errorf("stored ExpiresAt %v is still the old value (written: %v)", m.ExpiresAt, w.wantExp)
+		}
+		if !m.ExpiresAt.Equal(w.wantExp) {
+			w.run.Count("expires_at_read_back_differs_from_written", 1)
 		}
 		if m.Status != models.MappingStatusActive || m.IsRevoked {
 			return fmt.Errorf("expired cell: stored status/revoked flag changed")
@@ -600,6 +703,14 @@ type c04Obs struct {
 
 func (w *c04World) requesterRequest() *packet.TunnelOpenRequest {
 	req := &packet.TunnelOpenRequest{TunnelID: w.tunnel}
+	if w.cell.Foreign != "" {
+		// a credential that is VALID for mapping A, with the tunnel id of mapping B's bridge
+		req.MappingID = w.mapAID
+		if w.cell.Cred == "id+secret" {
+			req.SecretKey = w.secretA
+		}
+		return req
+	}
 	switch w.cell.Cred {
 	case "id":
 		req.MappingID = w.mapID
@@ -764,6 +875,10 @@ func c04RunCell(t *testing.T, run *vk.Run, cell c04Cell, idx int) (obs c04Obs, o
 		id, sec = w.T.ClientID, w.T.Secret
 	case "other":
 		id, sec = w.U.ClientID, w.U.Secret
+	case "listenA":
+		id, sec = w.LA.ClientID, w.LA.Secret
+	case "targetA":
+		id, sec = w.TA.ClientID, w.TA.Secret
 	}
 	rq, err := w.newEnd(w.n, "requester", id, sec)
 	if err != nil {
@@ -802,6 +917,8 @@ func c04RunCell(t *testing.T, run *vk.Run, cell c04Cell, idx int) (obs c04Obs, o
 			run.Count("watchdog_racing_victim", 1)
 			return fail("racing victim open did not return")
 		}
+	} else if strings.HasPrefix(cell.Cred, "raw:") {
+		w.openRaw(rq, w.tunnel, w.rawPayload())
 	} else {
 		w.open(rq, req)
 	}
@@ -1534,6 +1651,114 @@ func TestVerifC04ConcurrentValidation(t *testing.T) {
 	run.Floor("entitled_open_held_in_validation", int64(n-1))
 	run.Floor("request_overlapped_held_validation|id=other", int64(2*(n-1)))
 	run.Floor("entitled_admitted|tunnel=concurrent", int64(n-1))
+}
+
+// TestVerifC04ForeignTunnel: the requester holds a credential that is valid — for another
+// mapping A — and presents the tunnel id of a bridge that belongs to the victim's mapping B.
+func TestVerifC04ForeignTunnel(t *testing.T) {
+	run := vk.Start(t, "C04", "foreign")
+	defer run.Finish()
+	run.Rule("product relation{A,B disjoint parties; A,B share the listen client} x tunnel-state of B's bridge{waiting,served,remote} x requester{listen client of A, target client of A} x credential{A's mapping id, A's id + A's secret}, both mappings keyed and active; plus the same requesters opening a fresh tunnel id with the same credential (reference: the credential is valid for A); every cell is a distinct case")
+	var cells []c04Cell
+	for _, f := range []string{"disjoint", "shared-listen"} {
+		for _, tu := range []string{"waiting", "served", "remote"} {
+			for _, id := range []string{"listenA", "targetA"} {
+				for _, cr := range []string{"id", "id+secret"} {
+					cells = append(cells, c04Cell{Kind: "keyed", Tunnel: tu, MapState: "active", Identity: id, Cred: cr, Foreign: f})
+				}
+			}
+		}
+	}
+	c04RunMatrix(t, run, cells)
+	// reference: the same credentials are good for mapping A itself
+	for i, cr := range []string{"id", "id+secret"} {
+		w, err := c04NewWorld(t, run, c04Cell{Kind: "keyed", Tunnel: "none", MapState: "active", Identity: "listenA", Cred: cr, Foreign: "disjoint"}, 400000+i)
+		if err == nil {
+			if e, err2 := w.newEnd(w.n, "listenA", w.LA.ClientID, w.LA.Secret); err2 == nil {
+				req := &packet.TunnelOpenRequest{MappingID: w.mapAID, TunnelID: w.tunnel + "-own"}
+				if cr == "id+secret" {
+					req.SecretKey = w.secretA
+				}
+				w.open(e, req)
+				if c04Ok(e) {
+					run.Count("credential_of_A_admitted_on_A", 1)
+				}
+			}
+		}
+		w.close()
+	}
+	run.Exhaustive(true)
+	run.Floor("cells_executed", int64(len(cells)))
+	run.Floor("credential_of_A_admitted_on_A", 2)
+	run.Floor("served_pair_carried_data", 8)
+}
+
+// TestVerifC04RawJSON: TunnelOpen bodies written byte by byte (secret_key member absent /
+// empty / null, empty object, no payload, tunnel id only, all null), sent right after the
+// victims' own opens on the same node, which carried the mapping's right secret. A request
+// is judged by what ITS bytes present.
+func TestVerifC04RawJSON(t *testing.T) {
+	run := vk.Start(t, "C04", "rawjson")
+	defer run.Finish()
+	run.Rule("product tunnel-state{waiting,served} x mapping-state{active,revoked} x identity{unauth,unauth-p1,listen,target,other} x raw body{secret absent, secret empty, secret null, {}, no payload, tunnel id only, all members null}; keyed mapping; the immediately preceding TunnelOpen on the node is the victim's and presents the right secret; repeated in thorough; every cell is a distinct case")
+	var cells []c04Cell
+	for rep := 0; rep < run.Pick(1, 5); rep++ {
+		for _, tu := range []string{"waiting", "served"} {
+			for _, ms := range []string{"active", "revoked"} {
+				for _, id := range c04Identities {
+					for _, cr := range []string{"raw:secret-absent", "raw:secret-empty", "raw:secret-null", "raw:empty-object", "raw:no-payload", "raw:tunnel-only", "raw:all-null"} {
+						cells = append(cells, c04Cell{Kind: "keyed", Tunnel: tu, MapState: ms, Identity: id, Cred: cr, PrimerSecret: true, NoActivity: rep%2 == 1})
+					}
+				}
+			}
+		}
+	}
+	c04RunMatrix(t, run, cells)
+	run.Floor("cells_executed", int64(len(cells)))
+	run.Floor("entitled_admitted|tunnel=waiting", 1)
+	run.Floor("refused_with_failure_ack", 1)
+}
+
+// TestVerifC04Zones: a slice of the matrix with the process-local time zone set east and
+// west of UTC (mapping records go through the repository's JSON serialisation on every
+// write/read): what time zone the server runs in must not decide whether an expired or
+// revoked mapping admits.
+func TestVerifC04Zones(t *testing.T) {
+	run := vk.Start(t, "C04", "zones")
+	defer run.Finish()
+	run.Rule("zone{UTC+8, UTC-7, UTC+13:45} as time.Local x mapping-kind{keyed,conncode} x tunnel-state{none,waiting} x mapping-state{active,expired-1s,expired-1m,expired-1h,revoked} x identity{listen,target,other} x credential{id,id+secret}; every cell is a distinct case")
+	saved := time.Local
+	defer func() { time.Local = saved }()
+	total := 0
+	for _, z := range []struct {
+		name string
+		off  int
+	}{{"UTC+8", 8 * 3600}, {"UTC-7", -7 * 3600}, {"UTC+13:45", 13*3600 + 45*60}} {
+		time.Local = time.FixedZone(z.name, z.off)
+		var cells []c04Cell
+		for _, k := range []string{"keyed", "conncode"} {
+			for _, tu := range []string{"none", "waiting"} {
+				for _, ms := range []string{"active", "expired-1s", "expired-1m", "expired-1h", "revoked"} {
+					for _, id := range []string{"listen", "target", "other"} {
+						for _, cr := range []string{"id", "id+secret"} {
+							if k == "conncode" && cr == "id+secret" {
+								continue
+							}
+							cells = append(cells, c04Cell{Kind: k, Tunnel: tu, MapState: ms, Identity: id, Cred: cr, Zone: z.name})
+						}
+					}
+				}
+			}
+		}
+		total += len(cells)
+		c04RunMatrix(t, run, cells)
+		run.Count("zones_run", 1)
+	}
+	time.Local = saved
+	run.Floor("cells_executed", int64(total))
+	run.Floor("zones_run", 3)
+	run.Floor("entitled_admitted|tunnel=none", 3)
+	run.Floor("entitled_admitted|tunnel=waiting", 3)
 }
 
 func TestVerifC04RevokeInFlight(t *testing.T) {
